@@ -88,6 +88,21 @@ def run(rep):
     rep.run(bfs)
     rep.run(netfold)
     rep.run(stale_verdicts)
+    rep.run(no_flattening)
+
+
+def no_flattening(rep):
+    """the net is built from the reactions' own coefficients: a side must not be re-read as a list of labels (RXNSide is not a Mapping)"""
+    from ..rules.rxnside import flattening_sites
+    n = 0
+    for q, fi in sorted(rep.repo.module(RZ).funcs.items()):
+        if ".<locals>." in q:
+            continue
+        for node, why in flattening_sites(rep.repo, fi):
+            n += 1
+            rep.ob("O20.3", "R3a", fi, False, node, "arc weights of the net are the reaction's coefficients: " + why, node=node)
+    if not n:
+        rep.ob("O20.3", "R3a", f"{RZ}:*", True, "no RXNSide is re-normalised as an iterable", "arc weights of the net are the reaction's coefficients")
 
 
 def stale_verdicts(rep):
